@@ -553,7 +553,7 @@ func TestVerifC02(t *testing.T) {
 			{"program(30)", c02Wide, 5},
 			{"program(20)", c02Prog, vk.Pick(c, 0, 6)},
 			{"string-escape(12)", c02Esc, vk.Pick(c, 6, 7)},
-			{"structural(12)", c02Core, vk.Pick(c, 6, 8)}, // the largest walk (12^8 in thorough) goes last
+			{"structural(12)", c02Core, vk.Pick(c, 6, 7)},
 		}
 		nFS := vk.Pick(c, 2, 3)
 		rule := "depth-first walk of the tree of all token strings (every string of the stated length is visited): "
